@@ -187,7 +187,7 @@ def _layout(rng, m, n):
 
 
 def random_svd(ctx, idx, rng):
-    m, n = int(rng.integers(1, 25)), int(rng.integers(1, 25))
+    m, n = (int(rng.integers(1, 25)), int(rng.integers(1, 25))) if idx % 20 else (int(rng.integers(25, 120)), int(rng.integers(25, 120)))
     lay, q0, q1 = _layout(rng, m, n)
     kind = str(rng.choice(['decaying', 'flat', 'staircase', 'degenerate', 'deficient', 'random', 'zerocols', 'binary', 'dupcols']))
     cplx = bool(rng.random() < 0.5)
